@@ -1,16 +1,24 @@
 (* C18, translator tie: DistanceIterator::new / Iterator::next of src/primitives/common/distance_iterator.rs, regenerated
-   from the source on every run by translate/r2c (coq/Gen/SrcRectPoints.v): driving the translated `next` yields the
+   from the source on every run by translate/r2c (coq/Gen/SrcRectPoints.v): driving the translated `next` until its first None (src_distances_collect
+   n: None = the step budget ran out first; Some l = finished) yields, for a budget above the number of points, the
    model's list map (sm_dist_item c2x) (points bbox) (Model/Sectormodel.v: sc_distances), provided every squared
    distance is a value of u32 (the code computes it in i32 and casts).  Statement only. *)
 From EG Require Import Base.Prelude Base.Casts Model.Geometry Model.Sectormodel Proofs.Geometry.
 From EG Require Import Gen.SrcGeometry Gen.SrcRectPoints Proofs.SrcRectPoints.
 
-Theorem C18_src_distance_iterator_is_model : forall c2x r extra,
+Theorem C18_src_distance_iterator_is_model : forall c2x r n,
   rect_ok r ->
   (forall p, In p (points r) -> sm_len2 (psub (sm_twice p) c2x) <= u32_max) ->
-  src_distances_run (length (points r) + extra) (src_DistanceIterator_new c2x r) = map (sm_dist_item c2x) (points r).
+  src_distances_collect n (src_DistanceIterator_new c2x r)
+  = if (length (points r) <? n)%nat then Some (map (sm_dist_item c2x) (points r)) else None.
 Proof. exact src_distances_eq. Qed.
 
+(* round 5: DistanceIterator::empty yields nothing and stays empty (fuel 1 suffices) *)
+Theorem C18_src_distance_iterator_empty_yields_nothing : forall F, (1 <= F)%nat ->
+  src_DistanceIterator_next F src_DistanceIterator_empty = Some (src_DistanceIterator_empty, None).
+Proof. intros [|F] H; [lia|]. destruct F; vm_compute; reflexivity. Qed.
+
 Example C18_src_nonvacuous :
-  src_distances_run 5 (src_DistanceIterator_new (P 2 2) (R (P 0 0) (S 2 1))) = [(P 0 0, P (-2) (-2), 8); (P 1 0, P 0 (-2), 4)].
-Proof. vm_compute. reflexivity. Qed.
+  src_distances_collect 5 (src_DistanceIterator_new (P 2 2) (R (P 0 0) (S 2 1))) = Some [(P 0 0, P (-2) (-2), 8); (P 1 0, P 0 (-2), 4)] /\
+  src_distances_collect 2 (src_DistanceIterator_new (P 2 2) (R (P 0 0) (S 2 1))) = None.
+Proof. split; vm_compute; reflexivity. Qed.
